@@ -348,6 +348,16 @@ class Repo:
                             left.add(f"{fi.qual}.{n.func.id}")      # a local closure the inliner could not splice in
                         elif isinstance(n.func, ast.Name) and n.func.id in new_classes:
                             left.add(n.func.id)
+                    elif isinstance(n, ast.Name) and isinstance(n.ctx, ast.Load):
+                        # a new helper used as a *value* (stored in a variable / tuple / table and called through it): the call through
+                        # the variable is not a call the inliner can splice
+                        r = inl.resolve(ast.Call(func=n, args=[], keywords=[]), fi)
+                        if r:
+                            left.add(r[0].qual)
+                    elif isinstance(n, ast.Attribute) and isinstance(n.ctx, ast.Load) and isinstance(n.value, ast.Name) and n.value.id in ("self", "cls"):
+                        r = inl.resolve(ast.Call(func=n, args=[], keywords=[]), fi)
+                        if r:
+                            left.add(r[0].qual)
                 if left:
                     self.residual[fi.qual] = sorted(left)
 
@@ -543,7 +553,9 @@ def _split_tuple_assignments(tree):
                     and dotted(n.value.left) == dotted(n.targets[0]):
                 t = dotted(n.targets[0])
                 if not any(dotted(x) == t for x in ast.walk(n.value.right)):
-                    return ast.copy_location(ast.AugAssign(target=n.targets[0], op=n.value.op, value=n.value.right), n)
+                    aug = ast.copy_location(ast.AugAssign(target=n.targets[0], op=n.value.op, value=n.value.right), n)
+                    aug.from_binop = True       # written as `X = X + e`: rebinding, never an in-place operator (matters for objects with __iadd__)
+                    return aug
             return n
         def _tail_continue(self, stmts):
             """a `continue` in tail position of a loop body does nothing: dropped (recursively through trailing if / try arms)"""
@@ -695,6 +707,38 @@ def _split_tuple_assignments(tree):
 
         def visit_Return(self, n):
             n = self.generic_visit(n)
+            # `return all(P(x) for x in X)`  ==  `for x in X: if not P(x): return False` + `return True`   (any: dually); also under
+            # one `not` and with `bool(...)` around it.  The loop with early return is the form the path rules read.
+            v, neg = n.value, False
+            while True:
+                if isinstance(v, ast.UnaryOp) and isinstance(v.op, ast.Not):
+                    v, neg = v.operand, not neg
+                elif isinstance(v, ast.Call) and isinstance(v.func, ast.Name) and v.func.id == "bool" and len(v.args) == 1 and not v.keywords:
+                    v = v.args[0]
+                else:
+                    break
+            if isinstance(v, ast.Call) and isinstance(v.func, ast.Name) and v.func.id in ("all", "any") and len(v.args) == 1 and not v.keywords \
+                    and isinstance(v.args[0], (ast.GeneratorExp, ast.ListComp)):
+                comp = v.args[0]
+                is_all = v.func.id == "all"
+                hit = ast.Constant(value=(not is_all) != neg)        # value returned from inside the loop
+                miss = ast.Constant(value=is_all != neg)             # value returned after the loop
+                test = ast.UnaryOp(op=ast.Not(), operand=comp.elt) if is_all else comp.elt
+                body = [ast.If(test=test, body=[ast.Return(value=hit)], orelse=[])]
+                for g in reversed(comp.generators):
+                    for c in reversed(g.ifs):
+                        body = [ast.If(test=c, body=body, orelse=[])]
+                    body = [ast.For(target=g.target, iter=g.iter, body=body, orelse=[], type_comment=None)]
+                    for x in ast.walk(body[0].target):
+                        if hasattr(x, "ctx"):
+                            x.ctx = ast.Store()
+                out = body + [ast.Return(value=miss)]
+                out = [ast.fix_missing_locations(ast.copy_location(o, n)) for o in out]
+                for o in out:
+                    for x in ast.walk(o):
+                        if not hasattr(x, "lineno") and isinstance(x, (ast.stmt, ast.expr)):
+                            ast.copy_location(x, n)
+                return out
             if isinstance(n.value, ast.IfExp) and os.environ.get("VERIF_KEEP_IFEXP") != "1":
                 a = ast.copy_location(ast.Return(value=n.value.body), n)
                 b = ast.copy_location(ast.Return(value=n.value.orelse), n)
